@@ -254,8 +254,8 @@ pub trait Prop: Sync + Send + 'static {
     /// contention pass after the random search: this many small groups of related cases (a case,
     /// a sibling, and the case with one integer component moved by a multiple of a power of two)
     /// are each judged `CONTENTION_ITERS` times by all worker threads at the same time (0 = none)
-    const CONTENTION_GROUPS: u64 = 24;
-    const CONTENTION_ITERS: u64 = 150;
+    const CONTENTION_GROUPS: u64 = 32;
+    const CONTENTION_ITERS: u64 = 20_000;
     fn gen(u: &mut Unstructured<'_>) -> arbitrary::Result<Self::Case>;
     fn check(case: &Self::Case, cx: &mut Cx) -> Verdict;
 }
@@ -813,8 +813,8 @@ impl Env {
             formed += 1;
             // repetitions bounded by cost: a group occupies the workers for about 0.1 s at most
             // (cases of some sub-checks are whole rows or histories)
-            let per_round = t_alone.elapsed().as_secs_f64().max(1e-6);
-            let iters = ((0.1 / per_round) as u64).clamp(2, iters);
+            let per_round = t_alone.elapsed().as_secs_f64().max(1e-7);
+            let iters = ((0.05 / per_round) as u64).clamp(2, iters);
             judged += iters * group.len() as u64 * self.threads.max(2) as u64;
             all.push((group, iters));
         }
